@@ -169,6 +169,10 @@ func basePattern(server string) *regexp.Regexp {
 		return regexp.MustCompile(`^`)
 	case "/v1":
 		return regexp.MustCompile(`^/v1`)
+	case "/":
+		return regexp.MustCompile(`^`)
+	case "/V2":
+		return regexp.MustCompile(`^/V2`)
 	case "/api/{ver}/{area}":
 		return regexp.MustCompile(`^/api/[^/]+/[^/]+`)
 	case "/api/{ver}":
@@ -412,8 +416,8 @@ func check(c Case) (o h.Outcome) {
 
 var tplPool = []string{"/a", "/a/{x}", "/a/b", "/{x}", "/{x}/b", "/a/{x}/b", "/a/{x}/{y}", "/{x}/{y}", "/b/{y}", "/b", "/a/b/c", "/a/{x}/c", "/{x}/b/{y}", "/a/b/{y}", "/a/p-{x}", "/a/p-b", "/a/{x}.json", "/a/b.json", "/a/{x}.{y}", "/{x}-{y}/b", "/a/{w}/d", "/{v}/d/{y}"}
 var methodSets = [][]string{{"GET"}, {"POST"}, {"GET", "POST"}, {"GET", "PUT", "DELETE"}}
-var servers = []string{"none", "/v1", "/api/{ver}", "http://h.example/base", "{scheme}://h.example/base", "http://{env}.example/base", "multi:/v1,/v10", "multi:/v10,/v1", "first:/one,/two", "/api/{ver}/{area}"}
-var values = []string{"1", "abc", "a.b", "x-y_z~", "b", "a"}
+var servers = []string{"none", "/v1", "/", "/V2", "/api/{ver}", "http://h.example/base", "{scheme}://h.example/base", "http://{env}.example/base", "multi:/v1,/v10", "multi:/v10,/v1", "first:/one,/two", "/api/{ver}/{area}"}
+var values = []string{"1", "abc", "a.b", "x-y_z~", "b", "a", "Xy9", "B"}
 
 func baseOf(server string) string {
 	switch server {
@@ -427,6 +431,10 @@ func baseOf(server string) string {
 		return ""
 	case "/v1":
 		return "/v1"
+	case "/":
+		return ""
+	case "/V2":
+		return "/V2"
 	case "/api/{ver}/{area}":
 		return "/api/v2/eu"
 	case "/api/{ver}":
@@ -474,7 +482,7 @@ func requestsFor(c Case) []Case {
 
 func requestsUnder(c Case, base, host string, add func(method, path, filled, origin string)) {
 	for _, t := range c.Templates {
-		for vi := 0; vi < 2; vi++ {
+		for vi := 0; vi < 3; vi++ {
 			p := base + fill(t.Path, func(i int) string { return values[(vi*3+i)%len(values)] })
 			for _, m := range []string{"GET", "POST", "DELETE"} {
 				add(m, p, t.Path, host)
